@@ -1,4 +1,4 @@
-"""B21 witness (fixed by /repo c73c4deb): merge --squash onto an unmoved target credited a person's re-indented line to a session.
+"""B21 witness (fixed by /repo df029dce): merge --squash onto an unmoved target credited a person's re-indented line to a session.
 Run from /verif: python3 scripts/witness/b21_squash_unmoved_target.py  (BIN=<git-ai binary> to test another build)."""
 import sys, json, os
 sys.path.insert(0, "/verif")
